@@ -551,6 +551,31 @@ func writeBackRegression(opt *config.PersistOptions) hcase {
 	return c
 }
 
+// the automatic flush of the write-back batch counts saves only: 99 saves, one of them displaced (a delete that must not
+// touch cacheSize), then the 100th save flushes.  A Remove that resets or bumps the counter moves the flush.
+func autoFlushRegression(opt *config.PersistOptions) hcase {
+	c := hcase{WB: true, tags: map[string]int{"regression:auto-flush-counts-saves-only": 1}}
+	w := newWorld(true, opt)
+	defer w.close()
+	g := &gen{r: rng.New(1), w: w, c: &c, ids: map[uint64]bool{}, last: time.Now()}
+	g.raw(hop{K: "snap"})
+	key := func(i int) string { return fmt.Sprintf("k%03d", i) }
+	mk := func(id uint64, i int, ver uint64) *c07x.Region {
+		return &c07x.Region{ID: id, Start: key(i), End: key(i + 1), Peers: []c07x.Peer{{ID: id*10 + 1, Store: 1}, {ID: id*10 + 2, Store: 2}},
+			Leader: id*10 + 1, Size: 10, Ver: ver, ConfVer: 1, Term: 1, Stamp: int64(id)}
+	}
+	for i := 1; i <= 97; i++ {
+		r := mk(uint64(i), i, 1)
+		g.ids[r.ID] = true
+		g.raw(hop{K: "hb", R: r})
+	}
+	g.step(hop{K: "hb", R: mk(98, 98, 1)})
+	g.step(hop{K: "hb", R: mk(1000, 1, 2)}) // displaces region 1: DeleteRegion(1) + the 99th save
+	g.step(hop{K: "hb", R: mk(99, 99, 1)})  // the 100th save: automatic flush
+	g.step(hop{K: "hb", R: mk(100, 100, 1)})
+	return c
+}
+
 // term probe: a reported term, then a heartbeat without term (TiKV before 3.0), then a smaller reported term
 func termProbe(opt *config.PersistOptions) hcase {
 	c := hcase{WB: false, tags: map[string]int{"probe:unreported-term-gap": 1}}
@@ -650,6 +675,7 @@ func main() {
 		runFixed(*replay, true)
 	} else {
 		emit(writeBackRegression(opt))
+		emit(autoFlushRegression(opt))
 		emit(termProbe(opt))
 		master := rng.New(*seed)
 		small, large := c07x.Small(), c07x.Large()
